@@ -144,8 +144,21 @@ def statement_runs(text):
                 for j in range(i, min(len(body), i + 3)):
                     a, b = body[i], body[j]
                     out.append((a.lineno, pyfront._char_col(lines, a.lineno, a.col_offset), b.end_lineno,
-                                pyfront._char_col(lines, b.end_lineno, b.end_col_offset)))
+                                pyfront._char_col(lines, b.end_lineno, b.end_col_offset), run_shape(body[i:j + 1])))
     return out
+
+
+def run_shape(stmts):
+    """Syntactic class of a run of statements, by how it binds names (for grouping deviations by root cause)."""
+    aug = cond = False
+    for s_ in stmts:
+        for n in ast.walk(s_):
+            if isinstance(n, ast.AugAssign):
+                aug = True
+        if isinstance(s_, (ast.If, ast.For, ast.While, ast.Try, ast.With)):
+            if any(isinstance(n, (ast.Assign, ast.AugAssign, ast.AnnAssign, ast.For, ast.NamedExpr)) for n in ast.walk(s_)):
+                cond = True
+    return (":binds-under-condition" if cond else "") + (":augmented-assignment" if aug else "")
 
 
 def selection_class(text, line, col, uline, ucol):
